@@ -200,39 +200,86 @@ func C15(c *Ctx) {
 		n := c.behindEdges("R15.2", "Vote", vote, es, c.callReaching(setVote), "role query IsAnyAvailableAdmin(Caller()) == true", "setVote")
 		r.Floor("R15.2", "setVote calls in Vote", n, 1)
 
-		addr := setVote.Params[2]
-		isAddr := func(v ssa.Value) bool { return v == ssa.Value(addr) }
-		member := core.EqualityEdges(setVote, isAddr, fieldLoad("Role", "ID"), true)
-		// ballot absent: `_, ok := p.BallotMap[addr]; ok` false edge
-		absent := condEdges(setVote, func(f core.Fact, ifi *ssa.If) (bool, int) {
-			if f.Kind != core.FBool {
-				return false, 0
+		// The obligations are evaluated where the writes are: in setVote, or in a helper of the contract that setVote
+		// hands the voter address / the ballot value to (extract-method); a helper call that itself lies behind the
+		// edge in setVote discharges the helper's sites.
+		type voteEnv struct {
+			fn            *ssa.Function
+			addr, approve ssa.Value
+		}
+		mkMember := func(e voteEnv) core.EdgeSet {
+			if e.addr == nil {
+				return core.EdgeSet{}
 			}
-			ex, ok := f.Subject.(*ssa.Extract)
-			if !ok || ex.Index != 1 {
-				return false, 0
+			return core.EqualityEdges(e.fn, func(v ssa.Value) bool { return v == e.addr }, fieldLoad("Role", "ID"), true)
+		}
+		mkAbsent := func(e voteEnv) core.EdgeSet {
+			// ballot absent: `_, ok := p.BallotMap[addr]; ok` false edge
+			return condEdges(e.fn, func(f core.Fact, ifi *ssa.If) (bool, int) {
+				if f.Kind != core.FBool || e.addr == nil {
+					return false, 0
+				}
+				ex, ok := f.Subject.(*ssa.Extract)
+				if !ok || ex.Index != 1 {
+					return false, 0
+				}
+				lk, ok := ex.Tuple.(*ssa.Lookup)
+				if !ok || !core.Mentions(lk.X, fieldLoad("Proposal", "BallotMap")) || !core.Direct(func(v ssa.Value) bool { return v == e.addr })(lk.Index) {
+					return false, 0
+				}
+				return true, 1 - holdsEdge(f)
+			})
+		}
+		mkValid := func(e voteEnv) core.EdgeSet {
+			if e.approve == nil {
+				return core.EdgeSet{}
 			}
-			lk, ok := ex.Tuple.(*ssa.Lookup)
-			if !ok || !core.Mentions(lk.X, fieldLoad("Proposal", "BallotMap")) || !core.Direct(isAddr)(lk.Index) {
-				return false, 0
-			}
-			return true, 1 - holdsEdge(f)
-		})
+			return core.EqualityEdges(e.fn, func(v ssa.Value) bool { return v == e.approve },
+				func(v ssa.Value) bool { _, ok := core.ConstString(v); return ok }, false)
+		}
 		isTally := or(storesToField("Proposal", "ApproveNum"), storesToField("Proposal", "AgainstNum"),
 			func(in ssa.Instruction) bool {
 				mu, ok := in.(*ssa.MapUpdate)
 				return ok && core.Mentions(mu.Map, fieldLoad("Proposal", "BallotMap"))
 			})
-		n1 := c.behindEdges("R15.2", "setVote", setVote, member, isTally, "electorate membership (addr == e.ID)", "tally/ballot write")
-		n2 := c.behindEdges("R15.2", "setVote", setVote, absent, isTally, "ballot-absent test (BallotMap[addr] missing)", "tally/ballot write")
-		r.Floor("R15.2", "tally/ballot writes in setVote", n1+n2, 6)
-		approve := setVote.Params[3]
-		valid := core.EqualityEdges(setVote, func(v ssa.Value) bool { return v == ssa.Value(approve) },
-			func(v ssa.Value) bool { _, ok := core.ConstString(v); return ok }, false)
-		n3 := c.behindEdges("R15.2", "setVote", setVote, valid, func(in ssa.Instruction) bool {
+		isPersist := func(in ssa.Instruction) bool {
 			call, ok := in.(ssa.CallInstruction)
 			return ok && core.IsStubCall("SetObject")(valueOf(call))
-		}, "ballot value == approve/reject", "SetObject(proposal)")
+		}
+		top := voteEnv{setVote, setVote.Params[2], setVote.Params[3]}
+		checkVote := func(mk func(voteEnv) core.EdgeSet, isSite InstrPred, edgeName, siteName string) int {
+			n := c.behindEdges("R15.2", "setVote", setVote, mk(top), isSite, edgeName, siteName)
+			outer := core.Reach([]core.Point{core.EntryOf(setVote)}, nil, core.CutOf(mk(top)))
+			for _, call := range core.Calls(setVote) {
+				h := core.StaticCallee(call)
+				if h == nil || h == setVote || len(h.Blocks) == 0 || core.PkgOf(h) != core.PkgOf(setVote) || len(sites(h, isSite)) == 0 {
+					continue
+				}
+				if !outer.Has(call) {
+					n += len(sites(h, isSite))
+					c.R.OK("R15.2", "setVote: "+h.Name()+" behind "+edgeName, c.P.Pos(call.Pos()), "the helper holding the "+siteName+" is only called across the edge")
+					continue
+				}
+				env := voteEnv{fn: h}
+				for ai, a := range call.Common().Args {
+					if ai >= len(h.Params) {
+						continue
+					}
+					if core.Strip(a) == top.addr {
+						env.addr = h.Params[ai]
+					}
+					if core.Strip(a) == top.approve {
+						env.approve = h.Params[ai]
+					}
+				}
+				n += c.behindEdges("R15.2", h.Name(), h, mk(env), isSite, edgeName, siteName)
+			}
+			return n
+		}
+		n1 := checkVote(mkMember, isTally, "electorate membership (addr == e.ID)", "tally/ballot write")
+		n2 := checkVote(mkAbsent, isTally, "ballot-absent test (BallotMap[addr] missing)", "tally/ballot write")
+		r.Floor("R15.2", "tally/ballot writes in setVote", n1+n2, 6)
+		n3 := checkVote(mkValid, isPersist, "ballot value == approve/reject", "SetObject(proposal)")
 		r.Floor("R15.2", "persist sites in setVote", n3, 1)
 	}
 
